@@ -157,9 +157,11 @@ CHECKS = {
           "Visvalingam-Whyatt loop; TLC computes the set of admissible outputs for every vertex sequence of the 3x3 lattice x 6 "
           "tolerances and proves on every state that each admissible output satisfies the stated postconditions (model => "
           "property); the implementation's index and coordinate variants must be members of the set, agree with each other, be "
-          "the identity for eps <= 0, and keep rings closed / >= 4 coordinates."),
+          "the identity for eps <= 0, and keep rings closed / >= 4 coordinates. Inputs far longer than the enumerated ones "
+          "(random lattice walks of 0 - 80 vertices, open and closed) are recorded from the real API and Trace_Simplify.tla "
+          "evaluates the property's postconditions exactly on every recorded call (one TLC state per call)."),
     note="Trusted: TLC rational arithmetic. Ties (equal distances / areas, dmax = eps) are modelled as nondeterminism, so float rounding at ties cannot raise an alarm.",
-    technique="TLA+ nondeterministic algorithm models (admissible-output sets) checked against postconditions by TLC; spec->impl replay", design_ref="DESIGN.md 5 C09"),
+    technique="TLA+ nondeterministic algorithm models (admissible-output sets) checked against postconditions by TLC; spec->impl replay + recorded calls validated by TLC", design_ref="DESIGN.md 5 C09"),
  "C14": dict(
     text=("Gen_Valid.tla states OGC validity as exact predicates on the witness lattice and enumerates valid and invalid shapes: all "
           "closed octilinear walks as rings (bow-tie, spike, flat, self-touching), shells with one or two candidate holes in every "
